@@ -297,6 +297,32 @@ class _Inliner:
                 out = self._expand_cm(s, c, h)
                 if out is not None:
                     return out
+        # (E) `for T in gen(..): BODY` / `v = list(gen(..))` where gen is a generator helper: the loop body takes the place of every
+        # `yield E` (as `T = E; BODY`) inside the generator's body
+        if isinstance(s, ast.Assign) and len(s.targets) == 1 and isinstance(s.targets[0], ast.Name) and isinstance(s.value, ast.Call) and \
+                dotted(s.value.func) == 'list' and len(s.value.args) == 1 and not s.value.keywords and isinstance(s.value.args[0], ast.Call):
+            gc = s.value.args[0]
+            h = self._inlinable(gc, False, gen=True)
+            if h is not None and not any(isinstance(x, ast.Name) and x.id == s.targets[0].id for x in ast.walk(gc)):
+                tmp = self._fresh('_item')
+                self.names.add(tmp)
+                acc = s.targets[0].id
+                app = ast.Expr(value=ast.Call(func=ast.Attribute(value=ast.Name(id=acc, ctx=ast.Load()), attr='append', ctx=ast.Load()),
+                                              args=[ast.Name(id=tmp, ctx=ast.Load())], keywords=[]))
+                loop = ast.For(target=ast.Name(id=tmp, ctx=ast.Store()), iter=gc, body=[app], orelse=[])
+                init = ast.Assign(targets=[ast.Name(id=acc, ctx=ast.Store())], value=ast.List(elts=[], ctx=ast.Load()))
+                for st_ in (init, loop):
+                    ast.copy_location(st_, s)
+                    ast.fix_missing_locations(st_)
+                out = self._expand_gen(loop, gc, h)
+                if out is not None:
+                    return [init] + out
+        if isinstance(s, ast.For) and not s.orelse and isinstance(s.iter, ast.Call):
+            h = self._inlinable(s.iter, False, gen=True)
+            if h is not None:
+                out = self._expand_gen(s, s.iter, h)
+                if out is not None:
+                    return out
         # (C) nested call
         for root in self._header_exprs(s):
             parents: Dict[int, ast.AST] = {}
@@ -413,7 +439,7 @@ class _Inliner:
             cur = p
 
     # -- which callee ---------------------------------------------------------------------------------
-    def _inlinable(self, c: ast.Call, awaited: bool, cm: Optional[str] = None) -> Optional[FuncInfo]:
+    def _inlinable(self, c: ast.Call, awaited: bool, cm: Optional[str] = None, gen: bool = False) -> Optional[FuncInfo]:
         try:
             tg = self.ty.callees(c, self.scope)
         except RecursionError:
@@ -453,7 +479,10 @@ class _Inliner:
         if any(isinstance(a, ast.Starred) for a in c.args) or any(k.arg is None for k in c.keywords):
             return None
         node = h.node
-        if _contains(node, (ast.YieldFrom, ast.Global, ast.Nonlocal) + (() if cm else (ast.Yield,))) or \
+        has_yield = _contains(node, (ast.Yield,))
+        if gen != has_yield and not cm:
+            return None
+        if _contains(node, (ast.YieldFrom, ast.Global, ast.Nonlocal)) or \
                 any(isinstance(x, (ast.FunctionDef, ast.AsyncFunctionDef, ast.ClassDef)) for b in node.body for x in ast.walk(b)):
             return None
         for x in ast.walk(node):
@@ -826,6 +855,81 @@ class _Inliner:
                 ast.copy_location(p, s)
                 ast.fix_missing_locations(p)
             self.log.append(f'{self.f.qualname}: context manager `{h.name}` inlined around the block (line {c.lineno})')
+            return pre + body2
+        except _GiveUp:
+            self.names = saved_names
+            raise
+
+    def _expand_gen(self, s: ast.For, c: ast.Call, h: FuncInfo) -> Optional[List[ast.stmt]]:
+        """for T in h(args): BODY  ->  h's body with every statement `yield E` replaced by `T = E; BODY`.
+        Exact when the generator yields only in statement position, never returns explicitly and has no try/finally or with around a
+        yield (the consumer runs to exhaustion: BODY has no break / return / yield), and BODY has no `continue` (it would have to
+        resume the generator)."""
+        body = _strip_doc(list(h.node.body))
+        if _has_return(body) or h.is_async:
+            return None
+        ys = [x for b in body for x in ast.walk(b) if isinstance(x, ast.Yield)]
+        if not ys or len(ys) > 3:
+            return None
+        ystmts = [x for b in body for x in ast.walk(b) if isinstance(x, ast.Expr) and isinstance(x.value, ast.Yield)]
+        if len(ystmts) != len(ys):
+            return None
+        for b in body:
+            for x in ast.walk(b):
+                if isinstance(x, (ast.With, ast.AsyncWith)) and any(isinstance(y, ast.Yield) for y in ast.walk(x)):
+                    return None
+                if isinstance(x, ast.Try) and x.finalbody and any(isinstance(y, ast.Yield) for y in ast.walk(x)):
+                    return None
+                if isinstance(x, ast.Try) and any(isinstance(y, ast.Yield) for part in [x.body] for st_ in part for y in ast.walk(st_)):
+                    return None     # an exception of BODY would be caught by the generator's handler once inlined
+        loop_body = ast.Module(body=s.body, type_ignores=[])
+        if _contains(loop_body, (ast.Return, ast.Yield, ast.YieldFrom, ast.Await)) and _contains(loop_body, (ast.Return, ast.Yield, ast.YieldFrom)):
+            return None
+        if self._loop_jumps(s.body):
+            return None
+        if not isinstance(s.target, (ast.Name, ast.Tuple)):
+            return None
+        if self.dry:
+            self._bind(c, h, allow_pre=True)
+            return []
+        saved_names = set(self.names)
+        try:
+            subst, rename, pre = self._bind(c, h, allow_pre=True)
+            body_c = copy.deepcopy(body)
+            ycopies = [x for b in body_c for x in ast.walk(b) if isinstance(x, ast.Expr) and isinstance(x.value, ast.Yield)]
+            marks = {id(x) for x in ycopies}
+            vals = {id(x): x.value.value for x in ycopies}     # type: ignore[union-attr]
+            for x in ycopies:
+                x.value = ast.Constant(value=None)
+            body2 = _fold([_Subst(subst, rename).visit(b) for b in body_c])
+
+            def put(stmts: List[ast.stmt]) -> None:
+                i = 0
+                while i < len(stmts):
+                    st = stmts[i]
+                    if id(st) in marks:
+                        v = vals[id(st)]
+                        v = _Subst(subst, rename).visit(v) if v is not None else ast.Constant(value=None)
+                        asg = ast.Assign(targets=[copy.deepcopy(s.target)], value=v)
+                        ast.copy_location(asg, st)
+                        ast.fix_missing_locations(asg)
+                        blk = [asg] + copy.deepcopy(s.body)
+                        stmts[i:i + 1] = blk
+                        i += len(blk)
+                        continue
+                    for fld in ('body', 'orelse', 'finalbody'):
+                        sub = getattr(st, fld, None)
+                        if isinstance(sub, list) and sub and isinstance(sub[0], ast.stmt):
+                            put(sub)
+                    if isinstance(st, ast.Try):
+                        for hd in st.handlers:
+                            put(hd.body)
+                    i += 1
+            put(body2)
+            for p in pre:
+                ast.copy_location(p, s)
+                ast.fix_missing_locations(p)
+            self.log.append(f'{self.f.qualname}: generator `{h.name}` inlined into its consuming loop (line {c.lineno})')
             return pre + body2
         except _GiveUp:
             self.names = saved_names
